@@ -9,6 +9,13 @@ correspond: random define-by-run programs run with the REAL BruteForceSampler th
             Same for the GridSampler (grid ids, RNG calls, stop); any exception out of the sampler is an alarm.
 observe:    independent oracle on the implementation: the program's leaves are enumerated in Python and compared
             with what optimize() evaluated (each exactly once, then it stops by itself; total trials = leaves).
+translate:  verif/props/c14_gen.py + verif/translators/tbrute.py: every `_TreeNode` method, the three sampler methods of
+            BruteForceSampler, `_enumerate_candidates` and five GridSampler methods are regenerated from the source as
+            Lean data on every run; Props/C14Gen.lean proves the interpreter of the generated methods equal to the hand
+            models for all inputs and restates the theorems for it.  The sub-drivers run that interpreter side by side
+            with the hand model on every case ("gen" field); the generated `_get_unvisited_grid_ids`,
+            `_grid_value_equal`, `_same_search_space` are also run on the REAL stored attributes / values and compared
+            with the real methods.
 """
 from __future__ import annotations
 
@@ -23,6 +30,7 @@ from fractions import Fraction
 from typing import Any
 
 from verif import core
+from verif.props import c14_gen
 
 RULE = (
     "bruteforce: seeded random program trees (depth<=4 quick / <=6 thorough, <=60 / <=150 leaves; int, stepped-float and "
@@ -432,6 +440,9 @@ def compare_bf(case: dict[str, Any], real: dict[str, Any], model: dict[str, Any]
     """first difference between the implementation and the Lean model, or None"""
     if "trials" not in model:
         return "driver: %s" % json.dumps(model)[:300]
+    if c14_gen.gen_disagreement(model) is not None:
+        return "interpreter of the methods generated from _brute_force.py differs from the hand model (Model/BruteForce.lean): %s" % (
+            json.dumps(model["gen"])[:300])
     if real.get("runaway"):
         return "the implementation ran %d trials on a program with %d leaves and was stopped by the harness" % (
             len(real["trials"]), len(leaves_of(case["prog"])))
@@ -643,6 +654,7 @@ def _run_grid_real_on(case: dict[str, Any], sampler: Any, rec: Any, tmpd: str) -
     n = len(all_grids)
     dists = {nm: optuna.distributions.CategoricalDistribution(space[nm]) for nm in space}
     some = {nm: space[nm][0] for nm in space}
+    pre_crash: "str | None" = None
     for kind in case["pre"]:
         if kind == "finished":
             study.add_trial(create_trial(state=TrialState.COMPLETE, value=1.0, params=dict(some), distributions=dict(dists)))
@@ -651,7 +663,10 @@ def _run_grid_real_on(case: dict[str, Any], sampler: Any, rec: Any, tmpd: str) -
         elif kind == "waiting":
             study.enqueue_trial(dict(some))
         elif kind == "stale-grid":
-            study.ask()  # before_trial assigns a grid id; the worker dies before it tells
+            try:
+                study.ask()  # before_trial assigns a grid id; the worker dies before it tells
+            except Exception as e:  # noqa: BLE001 - the sampler raised while the pre-history was built (e.g. KeyError('search_space'))
+                pre_crash = pre_crash or repr(e)[:200]
         elif kind.startswith("killed-"):
             # the worker process is killed INSIDE study.ask(): before the k-th attribute write of the sampler's
             # before_trial (kill -9: not an Exception, nothing cleans up; the trial stays RUNNING with part of its attrs)
@@ -671,6 +686,8 @@ def _run_grid_real_on(case: dict[str, Any], sampler: Any, rec: Any, tmpd: str) -
                 study.ask()
             except _Killed:
                 pass
+            except Exception as e:  # noqa: BLE001
+                pre_crash = pre_crash or repr(e)[:200]
             finally:
                 del st_obj.set_trial_system_attr
         elif kind == "grid-done":
@@ -678,7 +695,10 @@ def _run_grid_real_on(case: dict[str, Any], sampler: Any, rec: Any, tmpd: str) -
                 for nm in names:
                     trial.suggest_categorical(nm, space[nm])
                 return 0.0
-            study.optimize(plain, n_trials=1)
+            try:
+                study.optimize(plain, n_trials=1)
+            except Exception as e:  # noqa: BLE001
+                pre_crash = pre_crash or repr(e)[:200]
     pre_calls = len(rec.calls)
     outcomes = case["outcomes"]
 
@@ -702,9 +722,9 @@ def _run_grid_real_on(case: dict[str, Any], sampler: Any, rec: Any, tmpd: str) -
             raise KeyboardInterrupt()
         return 0.0
 
-    crashed = None
+    crashed = pre_crash
     for ki, k in enumerate(case["ks"]):
-        if study._stop_flag:
+        if study._stop_flag or pre_crash:
             break
         if ki > 0 and case["rng_seed"] % 2 == 0:
             # resumed by a *new* sampler object built the same way (a restarted process / load_study):
@@ -732,9 +752,73 @@ def _run_grid_real_on(case: dict[str, Any], sampler: Any, rec: Any, tmpd: str) -
             cell_ok = isinstance(gid, int) and 0 <= gid < n and all(_same(t.params[nm], g) for nm, g in zip(names, all_grids[gid]))
         trials.append({"gid": gid, "state": st, "params": {k: t.params[k] for k in t.params}, "cell_ok": cell_ok,
                        "tstate": t.state.name, "has_space": "search_space" in t.system_attrs})
+    try:
+        attrs: Any = real_attrs(study, study.sampler)
+    except Exception as e:  # noqa: BLE001 - recorded; the comparison is skipped
+        attrs = {"skip": repr(e)[:200]}
     return {"n": n, "trials": trials, "stop": bool(study._stop_flag), "crashed": crashed,
             "calls": [{"a": sorted(c["a"]), "i": c["i"], "v": c["a"][c["i"]]} for c in rec.calls[pre_calls:]],
-            "grids": all_grids, "names": names, "runaway": runaway}
+            "grids": all_grids, "names": names, "runaway": runaway, "attrs": attrs}
+
+
+def gval(v: Any, nan_ids: dict[int, int]) -> Any:
+    """a grid value for the driver; a NaN carries the identity of its Python object (`nan_ids`: id(obj) -> small number;
+    the caller keeps the objects alive)"""
+    if v is None or isinstance(v, (bool, str)):
+        return v
+    if isinstance(v, int):
+        return v
+    if isinstance(v, float):
+        if v != v:
+            return {"nan": nan_ids.setdefault(id(v), len(nan_ids))}
+        if v in (float("inf"), float("-inf")):
+            return {"inf": v < 0}
+        return {"f": frac_s(Fraction(v))}
+    return {"nan": 10 ** 6}  # not a GridValueType: never equal to anything (not generated here)
+
+
+def gspace(space: Any, nan_ids: dict[int, int]) -> list[Any]:
+    return [[k, [gval(x, nan_ids) for x in vs]] for k, vs in space.items()]
+
+
+def real_attrs(study: Any, sampler: Any) -> dict[str, Any]:
+    """what the generated `_get_unvisited_grid_ids` is run on: the sampler's search space and every stored trial's
+    grid_id / search_space / fixed_params attributes and state, exactly as read back from the storage, and the answer of
+    the real method on them (a set, or the exception)"""
+    from optuna.trial import TrialState
+
+    nan_ids: dict[int, int] = {}
+    keep = [sampler._search_space]
+    trials = []
+    for t in study._storage.get_all_trials(study._study_id, deepcopy=False):
+        sa = t.system_attrs
+        keep.append(sa)
+        sp = sa.get("search_space")
+        gid = sa.get("grid_id")
+        ok = (gid is None or (isinstance(gid, int) and gid >= 0)) and (sp is None or (isinstance(sp, dict) and all(isinstance(v, (list, tuple)) for v in sp.values())))
+        if not ok:
+            return {"skip": "attributes outside the model: %r / %r" % (gid, sp)}
+        st = "finished" if t.state.is_finished() else ("running" if t.state == TrialState.RUNNING else "waiting")
+        trials.append({"gid": gid, "space": None if sp is None else gspace(sp, nan_ids), "fixed": "fixed_params" in sa, "state": st})
+    mine = gspace(sampler._search_space, nan_ids)
+    try:
+        ans: Any = sorted(int(g) for g in sampler._get_unvisited_grid_ids(study))
+    except KeyError as e:
+        ans = "keyError:%s" % (e.args[0] if e.args else "")
+    return {"space": mine, "n": sampler._n_min_trials, "trials": trials, "real": ans}
+
+
+def gen_unvisited_diff(drv: Any, ra: dict[str, Any]) -> "str | None":
+    """the generated `_get_unvisited_grid_ids` on the real attributes vs the real method"""
+    if "skip" in ra:
+        return None
+    m = drv.ask({"op": "gen_unvisited", "space": ra["space"], "n": ra["n"], "trials": ra["trials"]})
+    got: Any = sorted(m["ids"]) if "ids" in m else (m.get("error") or json.dumps(m)[:200])
+    want = ra["real"] if isinstance(ra["real"], list) else ra["real"].split(":")[0]
+    if got != want:
+        return "_get_unvisited_grid_ids on the stored attributes: implementation %s / generated interpreter %s (hand model %s)" % (
+            ra["real"], got, m.get("hand"))
+    return None
 
 
 def grid_request(case: dict[str, Any], real: dict[str, Any]) -> dict[str, Any]:
@@ -752,13 +836,21 @@ def grid_request(case: dict[str, Any], real: dict[str, Any]) -> dict[str, Any]:
         else:
             pre.append([real["trials"][j]["gid"], "running"])
     raises = [int(t) for t, o in case["outcomes"].items() if o in ("raise", "interrupt")]
-    return {"op": "run", "n": real["n"], "ks": case["ks"], "pre": pre, "choices": [int(c["v"]) for c in real["calls"]],
-            "raises": raises}
+    req = {"op": "run", "n": real["n"], "ks": case["ks"], "pre": pre, "choices": [int(c["v"]) for c in real["calls"]],
+           "raises": raises}
+    if isinstance(real.get("attrs"), dict) and "space" in real["attrs"]:
+        req["space"] = real["attrs"]["space"]
+    return req
 
 
 def compare_grid(case: dict[str, Any], real: dict[str, Any], model: dict[str, Any]) -> str | None:
     if "trials" not in model:
         return "driver: %s" % json.dumps(model)[:300]
+    if c14_gen.gen_disagreement(model) is not None:
+        return "interpreter of the methods generated from _grid.py differs from the hand model (Model/Grid.lean): %s" % (
+            json.dumps(model["gen"])[:300])
+    if real.get("gen_unvisited_diff"):
+        return real["gen_unvisited_diff"]
     if real.get("runaway"):
         return "the implementation ran %d trials on a grid of %d cells and was stopped by the harness" % (len(real["trials"]), real["n"])
     if real["crashed"]:
@@ -848,12 +940,75 @@ def check_enum(chk: core.Check, n: int, only: list[dict[str, Any]] | None = None
             chk.violation({"sampler": "bruteforce", "kind": "candidates"}, case,
                           "_enumerate_candidates(%s) = %s, the points of the domain are %s" % (d, real, want))
             continue
+        if c14_gen.gen_disagreement(m) is not None:
+            chk.broke("correspondence", {"what": "generated _enumerate_candidates differs from Dist.enumerate", "dist": d, "gen": m["gen"]})
         if "cands" not in m or [Fraction(c) for c in m["cands"]] != spec or m["single"] != bool(dist.single()):
             chk.broke("correspondence", {"what": "enumerate/single", "dist": d, "model": m, "real": real,
                                          "single": bool(dist.single())})
         if dist.single() != (len(spec) == 1):
             chk.violation({"sampler": "bruteforce", "kind": "single"}, case,
                           "single() = %s for a domain with %d points" % (dist.single(), len(spec)))
+
+
+# ---------------------------------------------------------------------------------------------
+# `_grid_value_equal` / `_same_search_space` as generated vs the real methods
+# ---------------------------------------------------------------------------------------------
+
+def check_value_equal(chk: core.Check, drv: core.Driver, n_spaces: int) -> None:
+    """every pair of a pool of grid values (two different NaN objects, the same NaN object twice, inf, True/1/1.0, "1",
+    None ...) through the real `_grid_value_equal` and the interpreter of the generated one (which the proofs equate with
+    the hand model's `==`); then random pairs of search spaces (permuted keys, a copied NaN, a changed / dropped value,
+    a dropped key) through `_same_search_space`."""
+    import pickle
+
+    from optuna.samplers import GridSampler
+
+    _quiet()
+    nan1, nan2 = float("nan"), float("nan")
+    pool = [None, True, False, 0, 1, 2, -3, 0.0, 1.0, 0.5, -2.25, float("inf"), float("-inf"), nan1, nan2, "1", "a", "", "nan"]
+    ids: dict[int, int] = {}
+    for a in pool:
+        for b in pool:
+            real = bool(GridSampler._grid_value_equal(a, b))
+            m = drv.ask({"op": "gen_veq", "a": gval(a, ids), "b": gval(b, ids)})
+            chk.count("gen:value-equal")
+            chk.evaluations += 1
+            if m.get("eq") is not real or m.get("hand") is not real:
+                chk.broke("correspondence", {"what": "_grid_value_equal(%r, %r): implementation %s / generated interpreter %s / hand model %s" % (
+                    a, b, real, m.get("eq", m.get("error")), m.get("hand"))})
+                return
+    r = chk.rng
+    vals = [0, 1, 2, 5, -3, 0.5, 1.25, "a", "b", None, True, float("nan"), float("inf"), -2.25]
+    for _ in range(n_spaces):
+        mine = {"p%d" % i: [r.choice(vals) for _ in range(r.randint(1, 3))] for i in range(r.randint(1, 3))}
+        theirs: dict[str, list[Any]] = pickle.loads(pickle.dumps(mine))   # new objects (NaN included), as after a storage round trip
+        mut = r.choice(["same", "same", "perm", "value", "len", "key", "num"])
+        k = r.choice(sorted(theirs))
+        if mut == "perm":
+            theirs = {kk: theirs[kk] for kk in sorted(theirs, reverse=True)}
+        elif mut == "value":
+            theirs[k][r.randrange(len(theirs[k]))] = r.choice(vals)
+        elif mut == "len":
+            theirs[k] = theirs[k][:-1] if r.random() < 0.5 else theirs[k] + [r.choice(vals)]
+        elif mut == "key":
+            if r.random() < 0.5:
+                del theirs[k]
+            else:
+                theirs["q"] = [1]
+        elif mut == "num":
+            theirs[k] = [float(x) if isinstance(x, int) and not isinstance(x, bool) else x for x in theirs[k]]
+        sampler = GridSampler(mine, seed=0)
+        real = bool(sampler._same_search_space(theirs))
+        ids = {}
+        keep = [sampler._search_space, theirs]
+        m = drv.ask({"op": "gen_samespace", "mine": gspace(sampler._search_space, ids), "theirs": gspace(theirs, ids)})
+        chk.count("gen:same-space:%s" % real)
+        chk.evaluations += 1
+        del keep
+        if m.get("same") is not real or m.get("hand") is not real:
+            chk.broke("correspondence", {"what": "_same_search_space: implementation %s / generated interpreter %s / hand model %s" % (
+                real, m.get("same", m.get("error")), m.get("hand")), "mine": repr(mine), "theirs": repr(theirs)})
+            return
 
 
 # ---------------------------------------------------------------------------------------------
@@ -908,6 +1063,7 @@ def witnesses(chk: core.Check, drv: core.Driver) -> None:
     for w in (W_GRIDQ, W_GRIDQ2):
         real = run_grid_real(w)
         model = drv["grid"].ask(grid_request(w, real))
+        real["gen_unvisited_diff"] = gen_unvisited_diff(drv["grid"], real["attrs"])
         diff = compare_grid(w, real, model)
         orc = oracle_grid(w, real)
         chk.count("grid:witness-enqueued")
@@ -938,6 +1094,7 @@ def run_case(case: dict[str, Any], drv: dict[str, core.Driver]) -> dict[str, Any
                           "optimize_calls": real["optimize_calls"], "stop": real["stop"]}}
     real = run_grid_real(case)
     model = drv["grid"].ask(grid_request(case, real))
+    real["gen_unvisited_diff"] = gen_unvisited_diff(drv["grid"], real["attrs"])
     diff = compare_grid(case, real, model)
     orc = oracle_grid(case, real)
     return {"diff": diff, "oracle": orc, "nontrivial": real["n"] >= 2,
@@ -1107,8 +1264,10 @@ def search(chk: core.Check) -> None:
 
 def main(chk: core.Check) -> int:
     chk.rule = RULE
+    c14_gen.regenerate(chk)  # T-brute: Generated/BruteForceMethods.lean, GridMethods.lean from _brute_force.py / _grid.py
     if not getattr(chk, "no_prove", False):
-        chk.prove()
+        chk.prove(["OptunaVerif.Props.C14", c14_gen.MODULE])
+        c14_gen.explain_proof_failure(chk)
     quick = chk.tier == "quick"
     try:
         core.ensure_driver()
@@ -1117,6 +1276,7 @@ def main(chk: core.Check) -> int:
             for c in core.corpus_cases("C14"):
                 handle(chk, c, drv)
             check_enum(chk, 120 if quick else 1500)
+            check_value_equal(chk, drv["grid"], 150 if quick else 3000)
             witnesses(chk, drv)
             cases = stream(chk, 400 if quick else 6000, 150 if quick else 2500)
             if quick:
@@ -1152,7 +1312,8 @@ def main(chk: core.Check) -> int:
     chosen = [picked[k] for k in order if k in picked][:4]
     if chosen:
         chk.samples = chosen
-    chk.trusted += ["the recording RNG stub replaces sampler._rng (numpy RandomState.choice semantics: only entries with p>0 can be drawn)"]
+    chk.trusted += ["T-brute (verif/translators/tbrute.py): the whitelisted source shapes are mapped to the primitives of Model/SamplerIR.lean as documented there",
+                    "the recording RNG stub replaces sampler._rng (numpy RandomState.choice semantics: only entries with p>0 can be drawn)"]
     return chk.finish(search=search)
 
 
@@ -1169,6 +1330,7 @@ def replay(chk: core.Check, path: str) -> int:
         case = w.get("witness", w)
         if "case" in case:
             case = case["case"]
+    c14_gen.regenerate(chk)  # the sub-drivers link the methods generated from the tree under test
     core.ensure_driver()
     drv = {"bf": core.Driver("bruteforce"), "grid": core.Driver("grid")}
     try:
